@@ -316,7 +316,8 @@ CHECKS["C04"] = dict(
           "1..2 flushers, compression none/zstd/lz4. The recording io engine gives the totally ordered device write log; wait() "
           "returns are ack markers with the log position. Crash images = base image + EVERY prefix of the issued writes (strided "
           "only beyond 120 / 400 writes) + page-granular tears of the next write (page prefixes, two seeded page subsets, "
-          "last-page-only). Every image is reopened in quiet mode by the real recovery code and every key is looked up. Oracle "
+          "last-page-only), plus crash states in which all completed writes and a seeded subset of the writes in flight at the same moment "
+          "(2..6 in flight, decided by the issue / completion stamps) are on the device. Every image is reopened in quiet mode by the real recovery code and every key is looked up. Oracle "
           "from the op log: a hit must be a version whose insert was issued before the crash point; while no block was reclaimed a "
           "key whose latest acknowledged op is an insert reads that version or a later issued one (never older, never a miss "
           "unless a delete was issued later), an acknowledged delete with the log on never yields an older version; reopen must "
@@ -325,7 +326,7 @@ CHECKS["C04"] = dict(
           "hash of the image content."),
     exhaustive_part="per workload: every write-boundary crash point of the recorded log (when the log has at most 120 / 400 writes)",
     assumptions=HYB_ASSUME[:2] + [
-        "a crash preserves a prefix of the device writes in issue order, the last one possibly torn at page granularity (the property's fault model); pages are atomic",
+        "a crash preserves a prefix of the device writes in issue order, the last one possibly torn at page granularity (the property's fault model); additionally all completed writes plus any subset of the writes in flight; pages are atomic",
         "the device is sized so that nothing is reclaimed, except in 1 plan of 6 where reclaim is provoked and only the weak clause is judged from the first clean page on",
         "under write-on-eviction an insert counts as acknowledged only when memory was evicted before the wait()",
         "the real psync engine on a real FsDevice directory (tmpfs) sits behind the recording io wrapper (feature `verif`)",
